@@ -88,9 +88,11 @@ func (cs *chkSelector) getPosForward(ctx context.Context, pos journal.Pos) (chun
 		pIdx = 0
 	}
 
+	lastCnt := uint32(0)
 	for ; idx < n; idx++ {
 		chk = cks[idx]
 		chkSt := cs.getChunkStatus(ctx, chk, cks)
+		lastCnt = chkSt.count
 		if np, ok := chkSt.checkPosOrAdvance(pIdx); ok {
 			return chk, chkSt, journal.Pos{chk.Id(), np}, nil
 		}
@@ -98,7 +100,7 @@ func (cs *chkSelector) getPosForward(ctx context.Context, pos journal.Pos) (chun
 	}
 
 	// ok, the last one
-	return nil, nil, journal.Pos{chk.Id(), chk.Count()}, nil
+	return nil, nil, journal.Pos{chk.Id(), lastCnt}, nil
 }
 
 // getPosBackward checks position and move it backward if it is needed. It also returns the chunk
